@@ -130,6 +130,11 @@ impl Ty {
                 _ => format!("{:?}<{}>", w, t.rust()),
             },
             Ty::Ref(t) => format!("&{}", t.rust()),
+            // `@hasher`: a HashMap written with its third (hasher) argument
+            Ty::Qual(path, t) if path.len() == 1 && path[0] == "@hasher" => match t.as_ref() {
+                Ty::Map(k, v) => format!("HashMap<{}, {}, {}>", k.rust(), v.rust(), if k.rust().len() % 2 == 0 { "RandomState" } else { "BuildHasherDefault<FxHasher>" }),
+                other => other.rust(),
+            },
             Ty::Qual(path, t) => format!("{}::{}", path.join("::"), t.rust()),
             Ty::DateTime => "OffsetDateTime".to_string(),
             Ty::Bad(b) => match b {
@@ -556,7 +561,14 @@ pub fn item_src(it: &Item) -> String {
     let mut out = String::new();
     let depth = it.mod_path.len();
     for (i, m) in it.mod_path.iter().enumerate() {
-        out.push_str(&format!("{}pub mod {} {{\n", "    ".repeat(i), m));
+        // a path segment can also be a function body (`fn:name`) or a method body (`implfn:name`): items may be declared there
+        if let Some(f) = m.strip_prefix("fn:") {
+            out.push_str(&format!("{}pub fn {}() {{\n", "    ".repeat(i), f));
+        } else if let Some(f) = m.strip_prefix("implfn:") {
+            out.push_str(&format!("{}impl Holder {{ pub fn {}(&self) {{\n", "    ".repeat(i), f));
+        } else {
+            out.push_str(&format!("{}pub mod {} {{\n", "    ".repeat(i), m));
+        }
     }
     let ind = "    ".repeat(depth);
     let ind1 = "    ".repeat(depth + 1);
@@ -704,7 +716,7 @@ pub fn item_src(it: &Item) -> String {
         Kind::Const { ty, expr } => out.push_str(&format!("{ind}pub const {}: {} = {};\n", it.name, ty.rust(), expr)),
     }
     for i in (0..depth).rev() {
-        out.push_str(&format!("{}}}\n", "    ".repeat(i)));
+        out.push_str(&format!("{}}}{}\n", "    ".repeat(i), if it.mod_path[i].starts_with("implfn:") { " }" } else { "" }));
     }
     out
 }
